@@ -95,9 +95,9 @@ CHECKS = {
     ),
     "C13": dict(
         category="other",
-        technique="Kani full-domain harnesses on the extracted TransactionPriority ordering and TransactionsForAccount::add for the pending container (capacity 3); bounded Kani harness on the extracted MempoolInner::run_maintenance against contract-level container stand-ins",
-        text="The builder-queue priority is a total order that puts a lower nonce of the same group first; add on the ready container preserves `consecutive nonces starting at the account nonce` and joint affordability, and a refused add leaves the container untouched with the stated reason. run_maintenance (one account, <= 2 ready + <= 2 parked, bounded): every transaction ends in exactly one of ready / parked / reported-removed, no used nonce remains, the membership index agrees, the ready queue is consecutive from the account nonce and jointly affordable, and no internal-logic-error branch is taken.",
-        note="level other: container kernel. Trusted: Kani/CBMC, ordered-map stand-in, single-asset cost model. The per-account containers under run_maintenance are stand-ins implementing their contracts (trusted). Not covered: parked container internals, Mempool::insert/remove_tx_invalid orchestration, builder_queue.",
+        technique="Kani full-domain harnesses on the extracted TransactionPriority ordering and TransactionsForAccount::add for the pending container (capacity 3); bounded Kani harnesses on the extracted MempoolInner::run_maintenance, ::insert and ::remove_tx_invalid against contract-level container stand-ins",
+        text="The builder-queue priority is a total order that puts a lower nonce of the same group first; add on the ready container preserves `consecutive nonces starting at the account nonce` and joint affordability, and a refused add leaves the container untouched with the stated reason. run_maintenance (one account, <= 2 ready + <= 2 parked, bounded): every transaction ends in exactly one of ready / parked / reported-removed, no used nonce remains, the membership index agrees, the ready queue is consecutive from the account nonce and jointly affordable, the parked limit holds. insert: a new transaction ends in exactly one of ready / parked or is refused without any effect, promotions it triggers keep every old transaction accounted for; remove_tx_invalid: the transaction and its dependents are removed and reported with a reason, nothing else is lost.",
+        note="level other: container kernel. Trusted: Kani/CBMC, ordered-map stand-in, single-asset cost model. The per-account containers under run_maintenance are stand-ins implementing their contracts (trusted). Not covered: parked container internals, the async Mempool wrapper (check-then-insert window), builder_queue.",
     ),
     "C14": dict(
         category="proof",
@@ -131,9 +131,9 @@ CHECKS = {
     ),
     "C18": dict(
         category="proof",
-        technique="Kani loop-free harnesses on the extracted decrease_ibc_channel_balance, refund_tokens_to_sequencer_address, is_transfer/refund_source_zone and receive_tokens against a symbolic store; recv_packet_execute with a snapshot/restore StateDelta stand-in",
+        technique="Kani loop-free harnesses on the extracted decrease_ibc_channel_balance, refund_tokens_to_sequencer_address, is_transfer/refund_source_zone and receive_tokens against a symbolic store; recv_packet_execute with a snapshot/restore StateDelta stand-in; refund_tokens with the real emit_deposit, timeout_packet_execute and acknowledge_packet_execute",
         text="Escrow is debited by exactly the amount and never below zero (insufficient escrow is an error, nothing written); a refund releases escrow exactly iff the sequencer was the source zone and credits the recipient exactly; a successful receive debits escrow / registers the asset and credits exactly, with a deposit iff the recipient is a bridge account. "
-             "recv_packet_execute: an error acknowledgement implies that no balance, escrow, asset registration, deposit or event of the failed transfer survives; on success the nested delta is applied once and its events re-recorded.",
-        note=KANI_TB + " Packet data carried pre-parsed; emit_bridge_lock_deposit is a stand-in; denoms have at most 2 trace segments. Not under contract: Ics20Withdrawal::execute (sending side), refund_tokens' rollup branch, timeout/ack handlers.",
+             "recv_packet_execute: an error acknowledgement implies that no balance, escrow, asset registration, deposit or event of the failed transfer survives; on success the nested delta is applied once and its events re-recorded. Refund side: a successful refund credits the original sender exactly, releases escrow exactly iff the sequencer was the source zone, and for a withdrawal that came from a rollup caches exactly one deposit to the bridge account of that rollup for the same amount and asset; a timeout refunds once or fails; an acknowledgement refunds iff it is an error acknowledgement, a success acknowledgement moves nothing, an undecodable one is an error.",
+        note=KANI_TB + " Packet data carried pre-parsed; emit_bridge_lock_deposit is a stand-in; denoms have at most 2 trace segments. Memo and acknowledgement parsing are carried pre-parsed. Ics20Withdrawal::execute (sending side) is unit c18_withdrawal.",
     ),
 }
